@@ -167,6 +167,27 @@ def contract_corpus():
     return C
 
 
+def lattice_corpus():
+    from . import models
+    C = []
+    LAT = (".functor lub(a:number, b:number):number stateful\n.functor glb(a:number, b:number):number stateful\n.type L <: number\n"
+           ".lattice L<> {\n Bottom -> 0,\n Lub -> @lub(_,_),\n Glb -> @glb(_,_)\n}\n")
+    EV = ".decl e(x:number,v:L)\n.input e\n"
+    G2 = ".decl g(x:number,y:number)\n.input g\n"
+
+    def PL(name, body, **kw):
+        for lib, fm in (("max", {"lub": models.lub_max, "glb": models.glb_min}), ("or", {"lub": models.lub_or, "glb": models.glb_and})):
+            c = P("%s_%s" % (name, lib), LAT + body, "lattice", judge="lattice", functors=fm, orders=("fwd", "rev"), **kw)
+            c.functor_lib = lib
+            C.append(c)
+    PL("lat_nonrec", EV + ".decl r(x:number, v:L<>)\n.output r\nr(x,v) :- e(x,v).\n", m=3)
+    PL("lat_two_rules", EV + ".decl f(x:number,v:L)\n.input f\n.decl r(x:number, v:L<>)\n.output r\nr(x,v) :- e(x,v).\nr(x,v) :- f(x,v).\n", m=2)
+    PL("lat_propagate", EV + G2 + ".decl r(x:number, v:L<>)\n.output r\nr(x,v) :- e(x,v).\nr(y,v) :- r(x,v), g(x,y).\n", m=2, max_loop=12)
+    PL("lat_propagate_join", EV + G2 + ".decl r(x:number, v:L<>)\n.output r\nr(x,v) :- e(x,v).\nr(y,@lub(v,w)) :- r(x,v), g(x,y), e(y,w).\n", m=2, max_loop=12)
+    PL("lat_two_keys", ".decl e3(x:number,y:number,v:L)\n.input e3\n.decl r(x:number, y:number, v:L<>)\n.output r\nr(x,y,v) :- e3(x,y,v).\n", m=2)
+    return C
+
+
 def syntax_corpus():
     """print / reparse shapes (C15): qualifiers, plans, precedence, negative constants, records, symbols"""
     C = []
@@ -219,7 +240,7 @@ def component_corpus():
 def corpus(tier, extra=()):
     cs = [c for c in base_corpus() if tier in c.tiers]
     fams = {"opt": opt_corpus, "magic": opt_corpus, "index": index_corpus, "choice": contract_corpus, "subsume": contract_corpus,
-            "limit": contract_corpus, "syntax": syntax_corpus, "component": component_corpus}
+            "limit": contract_corpus, "syntax": syntax_corpus, "component": component_corpus, "lattice": lattice_corpus}
     done = set()
     for e in extra:
         f = fams.get(e)
